@@ -885,8 +885,11 @@ def run_interp(ctx, cases):
 def make_space(spec):
     import odl
     if spec['kind'] == 'uniform':
+        kw = {}
+        if spec.get('bdry'):
+            kw['nodes_on_bdry'] = [(bool(a), bool(b)) for a, b in spec['bdry']]
         return odl.uniform_discr([float(pfr(x)) for x in spec['min']], [float(pfr(x)) for x in spec['max']],
-                                 spec['shape'], dtype=spec['dtype'])
+                                 spec['shape'], dtype=spec['dtype'], **kw)
     part = odl.nonuniform_partition(*[[float(pfr(x)) for x in c] for c in spec['coords']],
                                     min_pt=[float(pfr(x)) for x in spec['min']],
                                     max_pt=[float(pfr(x)) for x in spec['max']])
@@ -1122,6 +1125,16 @@ def run_ops(ctx, cases, with_model=True):
 def spec_coords(spec):
     """independent statement of the grid of a space specification: the midpoints of the cells of
     the uniform partition of [min, max] / the nodes given to nonuniform_partition"""
+    if spec['kind'] == 'uniform' and spec.get('bdry'):
+        # equispaced nodes; an end with a boundary node carries it, the other ends keep half a
+        # stride of distance: (n - 1 + half strides) * s = max - min
+        out = []
+        for lo, hi, n, (bl, br) in zip(spec['min'], spec['max'], spec['shape'], spec['bdry']):
+            halves = (0 if bl else 1) + (0 if br else 1)
+            s_ = (pfr(hi) - pfr(lo)) / (n - 1 + Fr(halves, 2))
+            first = pfr(lo) + (0 if bl else s_ / 2)
+            out.append([first + k * s_ for k in range(n)])
+        return out
     if spec['kind'] == 'uniform':
         return [[pfr(lo) + (2 * k + 1) * (pfr(hi) - pfr(lo)) / (2 * n) for k in range(n)]
                 for lo, hi, n in zip(spec['min'], spec['max'], spec['shape'])]
@@ -1129,6 +1142,9 @@ def spec_coords(spec):
 
 
 def spec_str(spec):
+    if spec['kind'] == 'uniform' and spec.get('bdry'):
+        return '|'.join('b:{}:{}:{}:{}:{}'.format(fs(pfr(lo)), fs(pfr(hi)), n, int(bool(bl)), int(bool(br)))
+                        for lo, hi, n, (bl, br) in zip(spec['min'], spec['max'], spec['shape'], spec['bdry']))
     if spec['kind'] == 'uniform':
         return '|'.join('u:{}:{}:{}'.format(fs(pfr(lo)), fs(pfr(hi)), n)
                         for lo, hi, n in zip(spec['min'], spec['max'], spec['shape']))
@@ -1142,7 +1158,10 @@ def e2e_lines(case):
         if spec['kind'] != 'uniform':
             continue
         for j, (lo, hi, n) in enumerate(zip(spec['min'], spec['max'], spec['shape'])):
-            out.append((('grid', which, j), 'grid lo={} hi={} n={}'.format(fs(pfr(lo)), fs(pfr(hi)), n)))
+            flags = ''
+            if spec.get('bdry'):
+                flags = ' bl={} br={}'.format(int(bool(spec['bdry'][j][0])), int(bool(spec['bdry'][j][1])))
+            out.append((('grid', which, j), 'grid lo={} hi={} n={}{}'.format(fs(pfr(lo)), fs(pfr(hi)), n, flags)))
     if min(case['dom']['shape']) < 2 or case['dtype'].startswith('U'):
         return out
     if case['api'] == 'resampling':
@@ -1176,9 +1195,15 @@ def e2e_check(ctx, case, results, answers):
         for j, (r, e) in enumerate(zip(real, spec_coords(spec))):
             n = len(e)
             ctx.hit('e2e/grid/' + ('n=1' if n == 1 else 'n=2' if n == 2 else 'n>2'))
-            ctx.case(('e2e-grid', which, n, str(e[0])), None)
+            bd = ''
+            if spec.get('bdry'):
+                bd = 'tf'[0 if spec['bdry'][j][0] else 1] + 'tf'[0 if spec['bdry'][j][1] else 1]
+                ctx.hit('e2e/grid/bdry-' + bd)
+            ctx.case(('e2e-grid', which, n, bd, str(e[0])), None)
             if r != e:
-                ctx.violation('e2e grid uniform_discr n={} :: nodes are not the cell midpoints'.format(n),
+                ctx.violation('e2e grid uniform_discr n={}{} :: nodes are not the {}'.format(
+                    n, ' nodes_on_bdry=' + bd if bd else '',
+                    'equispaced nodes with boundary nodes as requested' if bd else 'cell midpoints'),
                               '{} axis {} of [{}, {}] with {} cells: nodes {} expected {}'.format(
                                   which, j, spec['min'][j], spec['max'][j], n, [str(x) for x in r],
                                   [str(x) for x in e]), rc)
@@ -1259,6 +1284,7 @@ def e2e_check(ctx, case, results, answers):
                               'entry {}: stored {} returned {}'.format(k, vt, tok), rc)
                 break
     if api == 'resampling' and dom['kind'] == 'uniform' and set(sch) == {'n'} and \
+            not dom.get('bdry') and not case['ran'].get('bdry') and \
             all(m % n == 0 for n, m in zip(dom['shape'], case['ran']['shape'])):
         # nearest resampling to a k-fold refinement: entry idx is the stored entry idx // k
         ctx.hit('e2e/theorem/resampling_nearest_refine')
@@ -1326,6 +1352,32 @@ def theorem_op_cases(rng, reps):
             out.append(dict(kind='interp', api='resampling', sch='n' * d, dtype=ndt, dom=dom, ran=ran,
                             vals=gen_values(rng, size, ndt, distinct=True), single_string=(rep % 2 == 1),
                             aseed=rng.getrandbits(30)))
+            # nodes_on_bdry in all four combinations (strides dyadic), onto the same grid / onto a
+            # default uniform grid of the same interval
+            if d <= 2:
+                for combo in ([(1, 1), (1, 0), (0, 1), (0, 0)] if d == 1 else
+                              [rng.sample([(1, 1), (1, 0), (0, 1), (0, 0)], 2) for _ in range(2)]):
+                    flags = [combo] if d == 1 else combo
+                    mins, maxs, shape, shape_r = [], [], [], []
+                    for (bl, br) in flags:
+                        n = rng.choice([2, 3, 4])
+                        d2 = 2 * (n - 1) + (0 if bl else 1) + (0 if br else 1)
+                        L = d2 * Fr(rng.choice([1, 2, 4, 8]), 8)
+                        lo = Fr(rng.randint(-4, 4), 2)
+                        mins.append(lo)
+                        maxs.append(lo + L)
+                        shape.append(n)
+                        shape_r.append(rng.choice([m for m in range(1, 8) if dyadic(L / m / 2)]))
+                    bdt = ['float64', 'complex128'][(rep + len(out)) % 2]
+                    dom = dict(kind='uniform', min=[frs(x) for x in mins], max=[frs(x) for x in maxs],
+                               shape=shape, dtype=bdt, bdry=[list(f) for f in flags])
+                    ran = dict(kind='uniform', min=dom['min'], max=dom['max'], shape=shape_r, dtype=bdt)
+                    size = int(np.prod(shape))
+                    for target in (ran, dict(dom)):
+                        out.append(dict(kind='interp', api='resampling',
+                                        sch=''.join(rng.choice('ln') for _ in range(d)), dtype=bdt, dom=dom,
+                                        ran=target, vals=gen_values(rng, size, bdt, distinct=True),
+                                        single_string=False, aseed=rng.getrandbits(30)))
             # affine data, all linear, coarser (or equal) uniform range grid
             dom, ran = gen_space_pair(rng, d, dt, False)
             coords = spec_coords(dom)
@@ -2510,7 +2562,7 @@ MODEL_BRANCHES = ['axis/{}/{}'.format(s_, b) for s_ in 'ln' for b in ('lo', 'hi'
     ['sample-tie/{}/{}'.format(k, c) for k in ('oopOnly', 'dual', 'ipOnly')
      for c in ('element', 'mesh', 'mesh+out', 'array', 'array+out', 'array-flat', 'array-flat+out', 'point')] + \
     ['input/accepted', 'input/rejected'] + \
-    ['e2e/grid/' + b for b in ('n=1', 'n=2', 'n>2')] + \
+    ['e2e/grid/' + b for b in ('n=1', 'n=2', 'n>2', 'bdry-tt', 'bdry-tf', 'bdry-ft', 'bdry-ff')] + \
     ['e2e/resample/' + b for b in ('dom-uniform', 'dom-nonuniform', 'axis-same', 'axis-coarsen', 'axis-refine',
                                    'all-inside-hull', 'point-outside-hull')] + \
     ['e2e/deform/' + b for b in ('zero-disp', 'moved', 'all-inside-hull', 'point-outside-hull')] + \
